@@ -136,6 +136,7 @@ class Capture:
     """sys.stdout / sys.stderr of the serving process while a scenario runs"""
 
     def __enter__(self):
+        self.loud = 0
         self.out, self.err = io.StringIO(), io.StringIO()
         self._cm = contextlib.ExitStack()
         self._cm.enter_context(contextlib.redirect_stdout(self.out))
@@ -148,6 +149,10 @@ class Capture:
 
     def take(self):
         o, e = self.out.getvalue(), self.err.getvalue()
+        # what `harness.wmod.loud` workers print is user output: it belongs on the process's stdout (and nowhere else)
+        kept = [ln for ln in o.split("\n") if ln != "LOUD"]
+        self.loud = getattr(self, "loud", 0) + (len(o.split("\n")) - len(kept))
+        o = "\n".join(kept)
         self.out.seek(0), self.out.truncate(), self.err.seek(0), self.err.truncate()
         return o, e
 
@@ -333,6 +338,7 @@ class ScriptRun:
         self.trace = []                 # session events for the Lean session model
         self.relaxed = False
         self.abort = False
+        self.loud_base = wmod.LOUD_PRINTED
         self.lines = [it[2] for it in case["script"] if it[0] == "line"]
         for it in case["script"]:
             if it[0] == "line" and len(it) > 3:
@@ -366,6 +372,10 @@ class ScriptRun:
         o, e = self.cap.take()
         if o or e:
             self.fail("monitor", monitor="printed", line=line, detail={"stdout": o[:200], "stderr": e[:200]})
+        if self.cap.loud != wmod.LOUD_PRINTED - self.loud_base and not getattr(self, "_loud_reported", False):
+            self._loud_reported = True
+            self.fail("monitor", monitor="user-output-diverted", line=line,
+                      detail={"printed_by_workers": wmod.LOUD_PRINTED - self.loud_base, "reached_stdout": self.cap.loud})
 
     def compare_pools(self, line, where):
         a, b = observe_quiet(self.pool), observe_quiet(self.twin)
